@@ -24,6 +24,31 @@ pub struct TripleCase {
     pub raw: i128,
 }
 
+/// the format's `Sample::EQUILIBRIUM` constant: the mid-point of the range, and mapped onto every other format's constant
+#[derive(Clone, Debug, Serialize, Deserialize)]
+pub struct EqCase {
+    pub kind: Kind,
+}
+
+pub fn check_equilibrium(c: &EqCase, st: &mut Stats) -> CheckResult {
+    st.nt(true);
+    macro_rules! one {
+        ($A:ty) => {
+            if c.kind == <$A as Fmt>::KIND {
+                let e = <$A as dasp_sample::Sample>::EQUILIBRIUM.to_val();
+                ensure!(e == Val::I(c.kind.eq_raw()), "{}::EQUILIBRIUM = {:?}, the amplitude-0 value of the format is {}", c.kind.name(), e, c.kind.eq_raw());
+                for &d in &INT_KINDS {
+                    let got = dyn_conv(c.kind, e, d)?;
+                    ensure!(got == Val::I(d.eq_raw()), "{}::EQUILIBRIUM converted to {} gives {:?}, that format's equilibrium is {}", c.kind.name(), d.name(), got, d.eq_raw());
+                }
+                return Ok(());
+            }
+        };
+    }
+    vp_core::for_int_formats!(one);
+    Err("bad case: unknown format".into())
+}
+
 fn splitmix(mut x: u64) -> u64 {
     x = x.wrapping_add(0x9e37_79b9_7f4a_7c15);
     let mut z = x;
@@ -91,17 +116,19 @@ fn exhaust_pair<A: Pair<B> + IntFmt, B: IntFmt>() -> Bulk {
     (0..n / chunk)
         .into_par_iter()
         .map(|c| {
-            let mut b = Bulk::default();
-            for i in c * chunk..(c + 1) * chunk {
-                let raw = lo + i as i128;
-                if let Err(m) = check_typed::<A, B>(raw) {
-                    b.set_fail(pair_json::<A, B>(raw), m);
-                    break;
+            vp_core::pan::two_pass(|slow| {
+                let mut b = Bulk::default();
+                for i in c * chunk..(c + 1) * chunk {
+                    let raw = lo + i as i128;
+                    if let Err(m) = vp_core::guard!(slow, check_typed::<A, B>(raw), |p| p) {
+                        b.set_fail(pair_json::<A, B>(raw), m);
+                        break;
+                    }
+                    b.evals += 1;
+                    b.nontrivial += (raw != lo && raw != hi && raw != eq) as u64;
                 }
-                b.evals += 1;
-                b.nontrivial += (raw != lo && raw != hi && raw != eq) as u64;
-            }
-            b
+                b
+            })
         })
         .reduce(Bulk::default, Bulk::merge)
 }
@@ -139,6 +166,7 @@ fn structured_pair<A: Pair<B> + IntFmt, B: IntFmt>(seed: u64, thorough: bool, nr
     (0..tops / chunk_tops)
         .into_par_iter()
         .map(|c| {
+            vp_core::pan::two_pass(|slow| {
             let mut b = Bulk::default();
             'outer: for top in c * chunk_tops..(c + 1) * chunk_tops {
                 for j in 0..per_top {
@@ -156,7 +184,7 @@ fn structured_pair<A: Pair<B> + IntFmt, B: IntFmt>(seed: u64, thorough: bool, nr
                     } else {
                         u as i128
                     };
-                    if let Err(m) = check_typed::<A, B>(raw) {
+                    if let Err(m) = vp_core::guard!(slow, check_typed::<A, B>(raw), |p| p) {
                         b.set_fail(pair_json::<A, B>(raw), m);
                         break 'outer;
                     }
@@ -165,6 +193,7 @@ fn structured_pair<A: Pair<B> + IntFmt, B: IntFmt>(seed: u64, thorough: bool, nr
                 }
             }
             b
+            })
         })
         .reduce(Bulk::default, Bulk::merge)
 }
@@ -251,6 +280,7 @@ pub fn run(ctx: &mut Ctx) {
         }
     }
     ctx.enumerate("boundaries", true, bcases.into_iter(), check_pair_dyn);
+    ctx.enumerate("equilibrium-constants", true, INT_KINDS.iter().map(|&kind| EqCase { kind }), check_equilibrium);
 
     // (d) proptest-random values of the wide formats (shrinking gives a minimal value)
     let wide_kinds: Vec<Kind> = INT_KINDS.iter().copied().filter(|k| k.bits() > 32).collect();
